@@ -209,6 +209,18 @@ func cmdCheck(args []string) {
 		if inList(ps.ExcludeClasses, o.Class) {
 			continue
 		}
+		if o.Class == "ensures" && len(ps.EnsuresTags) > 0 {
+			// only the tagged postconditions listed for this property
+			keep := false
+			for _, t := range ps.EnsuresTags {
+				if strings.Contains(o.Name, "#ensures."+t) {
+					keep = true
+				}
+			}
+			if !keep {
+				continue
+			}
+		}
 		sel = append(sel, o)
 	}
 	workers := 16
